@@ -79,6 +79,7 @@ type checkOutcome struct {
 	byBackend   map[string]int
 	solverTime  float64
 	samples     []map[string]interface{}
+	slow        []map[string]interface{} // discharged, but only after more than a third of the budget or on the retry
 	trusted     map[string]bool
 	notes       map[string]bool
 	functions   []string
@@ -339,6 +340,9 @@ func classify(p *Prog, oc *checkOutcome, work string, doReplay bool) {
 				continue
 			}
 			oc.obligations++
+			if r.Res.Verdict == "unsat" && (r.Res.Time > 3.3 || strings.Contains(r.Res.Solver, "(retry)")) {
+				oc.slow = append(oc.slow, map[string]interface{}{"obligation": name, "solver": r.Res.Solver, "time_s": round3(r.Res.Time)})
+			}
 			if len(oc.samples) < 12 {
 				oc.samples = append(oc.samples, map[string]interface{}{"obligation": name, "kind": r.O.Kind, "verdict": r.Res.Verdict, "solver": r.Res.Solver, "time_s": round3(r.Res.Time), "query_bytes": r.QueryLen})
 			}
@@ -511,6 +515,7 @@ func writeEvidence(oc *checkOutcome, seed int, wall float64) {
 		"vanished_obligations":      oc.vanished,
 		"single_backend":            oc.single,
 		"samples":                   oc.samples,
+		"slow_obligations":          oc.slow,
 		"machinery_errors":          oc.errors,
 		"selftest":                  oc.selftest,
 		"vacuity_covers":            map[string]int{"generated": oc.coversTotal, "reachable": oc.coversSat},
